@@ -503,6 +503,9 @@ impl Filter {
             return Ok(None); // actually an error
         }
 
+        if hex[32] >= 128 {
+            return Ok(None); // actually an error
+        }
         let base_offset = crate::HEX_INVERSE[hex[32] as usize];
         if base_offset == 255 {
             return Ok(None); // actually an error
